@@ -5,7 +5,7 @@ From Avfs Require Import Base BaseProofs PathModel PathSpec PathProofs PathClean
 From Avfs Require Import MemFS MemFile World Posix Inv InvMutators InvWorld.
 From Avfs Require Import WalkBridge WalkSym WalkBudget WalkReadlink WalkRel StepEq WalkInv StepInv StepRename StepRenameDir
   StepHist StepCwd StepOpen StepNamePath StepCwdCreate StepMkdirAll StepHistM StepHistO StepRemoveAll StepRemoveAllExact
-  StepNamePath2 StepMkdirAllRel.
+  StepNamePath2 StepMkdirAllRel DirExt.
 
 (* ---- the specification never reads the working-directory string: MkdirAll, RemoveAll ------------------------------------------------------ *)
 Lemma k_stat_setcwd fl s v n d p :
@@ -189,7 +189,7 @@ Section GenCwdHistory.
 
   Definition gen_call_ok_c (vi : nat) (sw : sworld) (d : str) (c : call) : Prop :=
     step_hyps (sw_fs sw) (sw_sv (sw_setcwd sw d)) -> Inv_heap (f_heap (sw_fs sw)) -> links_ok (f_heap (sw_fs sw)) ->
-    cov vi sw d c.
+    cwd_rel (sw_fs sw) (sw_sv sw) d -> cov vi sw d c.
 
   Fixpoint gen_call_ok_run_c (vi : nat) (w : world) (sw : sworld) (cs : list call) : Prop :=
     match cs with
@@ -214,7 +214,7 @@ Section GenCwdHistory.
       assert (Hsh : step_hyps (sw_fs sw) (sw_sv (sw_setcwd sw d))).
       { rewrite Hfs. apply (Inv_step_hyps w vi _ (sv_cwd (sw_sv sw)) I Hv); [exact Hadm|].
         rewrite <- Hfs. exact (proj1 Hok'). }
-      pose proof (Hc Hsh Hih Hok') as Hcov.
+      pose proof (Hc Hsh Hih Hok' Hcw) as Hcov.
       destruct (cov_step w vi sw d c Ha Hcov) as (S1 & d' & S2).
       destruct (cov_links vi sw d c Hcov Hpv Hok') as (L1 & L2).
       assert (I' : Inv (fst (impl_step_proj w c))) by (rewrite impl_step_fst; apply Inv_step; exact I).
@@ -236,6 +236,32 @@ Theorem history_inv_e (vi : nat) (cs : list call) (w : world) (sw : sworld) :
   /\ absc (fst (impl_run w cs)) vi (fst (spec_run sw cs)) (cwd_of (fst (impl_run w cs)) vi)
   /\ Inv (fst (impl_run w cs)) /\ links_ok (f_heap (w_fs (fst (impl_run w cs)))).
 Proof. exact (gen_history_inv_c covered_e step_world_e links_ok_spec_step_e vi cs w sw). Qed.
+
+(* ---- the working-directory premise derived for the calls that cannot move the working directory ------------------------------------------------ *)
+Theorem cwd_rel_kept (sw : sworld) (d : str) (c : call) :
+  us_admin (v_user (sv_view (sw_sv sw))) = true -> node_is_dir (f_heap (sw_fs sw)) (v_root (sv_view (sw_sv sw))) = true ->
+  cwd_keeping sw c -> cwd_rel (sw_fs sw) (sw_sv sw) d -> cwd_rel (sw_fs (fst (spec_step true sw c))) (sw_sv sw) d.
+Proof.
+  intros Ha Hr Hk (bs & Hg & Ed & Hw). exists bs. split; [exact Hg|]. split; [exact Ed|].
+  exact (dwalk_dext _ _ _ Ha (dext_spec_step sw c Hk) bs _ _ Hr Hw).
+Qed.
+
+(* [covered_e] without the premise, for those calls *)
+Theorem covered_e_keep (vi : nat) (sw : sworld) (d : str) (c : call) :
+  step_hyps (sw_fs sw) (sw_sv (sw_setcwd sw d)) -> cwd_rel (sw_fs sw) (sw_sv sw) d -> cwd_keeping sw c ->
+  (covered_x vi (sw_setcwd sw d) c \/ covered_res vi (sw_setcwd sw d) c \/ covered_np vi (sw_setcwd sw d) c
+   \/ covered_r vi (sw_setcwd sw d) c \/ covered_mp vi (sw_setcwd sw d) c) ->
+  covered_e vi sw d c.
+Proof.
+  intros H Hcw Hk Hc.
+  pose proof (cwd_rel_kept sw d c (sh_admin _ _ H) (sh_root _ _ H) Hk Hcw) as Hn.
+  destruct Hc as [Hc|[Hc|[Hc|[Hc|Hc]]]].
+  - left. left. left. split; [left; exact Hc|exact Hn].
+  - left. left. left. split; [right; exact Hc|exact Hn].
+  - left. right. split; [exact Hc|exact Hn].
+  - right. split; [left; exact Hc|exact Hn].
+  - right. split; [right; exact Hc|exact Hn].
+Qed.
 
 (* ---- non-vacuity: from the working directory "/d/e": MkdirAll "../x/missing"; WriteFile "../x/f"; Rename "../x/f" "../x/missing/g";
         Rename (a directory) "../x/missing" "m2"; RemoveAll "m2"; Remove "../x"; Getwd --------------------------------------------------------- *)
@@ -291,7 +317,7 @@ Module StepCwdMutExamples.
     change (fst (impl_step_proj u4 e5)) with u5. change (fst (spec_step true su4 e5)) with su5.
     change (fst (impl_step_proj u5 e6)) with u6. change (fst (spec_step true su5 e6)) with su6.
     change (fst (impl_step_proj u6 e7)) with u7. change (fst (spec_step true su6 e7)) with su7.
-    split; [|split; [|split; [|split; [|split; [|split; [|split; [|split; [|exact I]]]]]]]]; intros Hsh Hih Hok.
+    split; [|split; [|split; [|split; [|split; [|split; [|split; [|split; [|exact I]]]]]]]]; intros Hsh Hih Hok Hcw0.
     - (* Chdir "/d/e" *)
       left. left. right; left. split; [exact Hsh|]. exists (abs_path [s_d; s_e]). split; [reflexivity|]. split.
       + apply (sym_bridge_lookup_x tree_fs _ SlEval [s_d; s_e]); try reflexivity;
@@ -366,3 +392,74 @@ Module StepCwdMutExamples.
     snd (spec_run sw_tree he) = [SOk; SOk; SOk; SOk; SOk; SOk; SOk; SStr (abs_path [s_d; s_e])].
   Proof. vm_compute. reflexivity. Qed.
 End StepCwdMutExamples.
+
+(* ---- non-vacuity of [covered_e_keep]: no working-directory premise is discharged by hand ------------------------------------------------------- *)
+Module StepCwdKeepExamples.
+  Import WalkSymExamples WalkSymNonVacuity StepExamples StepInvExamples WalkRelExamples StepCwdExamples StepCwdCreateExamples.
+
+  Definition k5 := CRemove 0 (relp [DD; s_x; StepCwdCreateExamples.s_g]).
+  Definition k6 := CLstat 0 (relp [DD; s_x; s_f]).
+  Definition hk : list call := [d1; d2; d3; d4; k5; k6].
+
+  Definition x5 := Eval vm_compute in fst (impl_step_proj v4 k5).
+  Definition sx5 := Eval vm_compute in fst (spec_step true sv4 k5).
+
+  Example hk_ok : call_ok_run_e 0 w_tree sw_tree hk.
+  Proof.
+    unfold hk. cbn [call_ok_run_e gen_call_ok_run_c].
+    change (fst (impl_step_proj w_tree d1)) with w1. change (fst (spec_step true sw_tree d1)) with sw1.
+    change (fst (impl_step_proj w1 d2)) with v2. change (fst (spec_step true sw1 d2)) with sv2.
+    change (fst (impl_step_proj v2 d3)) with v3. change (fst (spec_step true sv2 d3)) with sv3.
+    change (fst (impl_step_proj v3 d4)) with v4. change (fst (spec_step true sv3 d4)) with sv4.
+    change (fst (impl_step_proj v4 k5)) with x5. change (fst (spec_step true sv4 k5)) with sx5.
+    split; [|split; [|split; [|split; [|split; [|split; [|exact I]]]]]]; intros Hsh Hih Hok Hcw.
+    - (* Chdir "/d/e" *)
+      left. left. right; left. split; [exact Hsh|]. exists (abs_path [s_d; s_e]). split; [reflexivity|]. split.
+      + apply (sym_bridge_lookup_x tree_fs _ SlEval [s_d; s_e]); try reflexivity;
+          [exact tree_wf|exact tree_links_clean|good_tac|vm_compute; discriminate|vm_compute; discriminate].
+      + vm_compute. discriminate.
+    - (* Mkdir "../x" *)
+      apply (covered_e_keep 0 sw1 _ d2 Hsh Hcw I). right. right. left.
+      split; [exact Hsh|]. split; [reflexivity|]. exists s_x.
+      change (relp [DD; s_x]) with (clean Linux (relp [DD; s_x])).
+      assert (HR : name_path (clean Linux (relp [DD; s_x])) s_x /\ _) by rel_tac Hsh (relp [DD; s_x]) 1 (@nil str) s_x.
+      destruct HR as (Hnp & Hr). split; [exact Hnp|res_tac Hr SlLstat].
+    - (* WriteFile "../x/f" *)
+      apply (covered_e_keep 0 sv2 _ d3 Hsh Hcw I). right. right. left.
+      split; [exact Hsh|]. split; [reflexivity|]. exists s_f.
+      change (relp [DD; s_x; s_f]) with (clean Linux (relp [DD; s_x; s_f])).
+      assert (HR : name_path (clean Linux (relp [DD; s_x; s_f])) s_f /\ _) by rel_tac Hsh (relp [DD; s_x; s_f]) 1 [s_x] s_f.
+      destruct HR as (Hnp & Hr). split; [exact Hnp|]. split; [res_tac Hr SlLstat|res_tac Hr SlEval].
+    - (* Link "f" "../x/g" *)
+      apply (covered_e_keep 0 sv3 _ d4 Hsh Hcw I). right. right. left.
+      split; [exact Hsh|]. split; [reflexivity|]. exists StepCwdCreateExamples.s_g.
+      change (relp [DD; s_x; StepCwdCreateExamples.s_g]) with (clean Linux (relp [DD; s_x; StepCwdCreateExamples.s_g])).
+      change (relp [s_f]) with (clean Linux (relp [s_f])).
+      assert (HR : name_path (clean Linux (relp [DD; s_x; StepCwdCreateExamples.s_g])) StepCwdCreateExamples.s_g /\ _)
+        by rel_tac Hsh (relp [DD; s_x; StepCwdCreateExamples.s_g]) 1 [s_x] StepCwdCreateExamples.s_g.
+      assert (HO : name_path (clean Linux (relp [s_f])) s_f /\ _) by rel_tac Hsh (relp [s_f]) 0 (@nil str) s_f.
+      destruct HR as (Hnp & Hr). destruct HO as (_ & Hro). split; [exact Hnp|]. split; [res_tac Hro SlLstat|].
+      split; [res_tac Hr SlLstat|]. intros par kind name n t m E. vm_compute in E. injection E as _ _ _ <-. vm_compute. discriminate.
+    - (* Remove "../x/g": not a directory *)
+      assert (Hnd : cwd_keeping sv4 k5).
+      { intros par name md c E Hl. vm_compute in E. injection E as <- <- _. vm_compute in Hl. injection Hl as <-. reflexivity. }
+      apply (covered_e_keep 0 sv4 _ k5 Hsh Hcw Hnd). right. right. right. right.
+      split; [exact Hsh|]. split; [exact Hih|]. split; [exact Hok|]. split; [reflexivity|]. exists StepCwdCreateExamples.s_g.
+      change (relp [DD; s_x; StepCwdCreateExamples.s_g]) with (clean Linux (relp [DD; s_x; StepCwdCreateExamples.s_g])).
+      assert (HR : name_path (clean Linux (relp [DD; s_x; StepCwdCreateExamples.s_g])) StepCwdCreateExamples.s_g /\ _)
+        by rel_tac Hsh (relp [DD; s_x; StepCwdCreateExamples.s_g]) 1 [s_x] StepCwdCreateExamples.s_g.
+      destruct HR as (Hnp & Hr). split; [exact Hnp|res_tac Hr SlLstat].
+    - (* Lstat "../x/f" *)
+      apply (covered_e_keep 0 sx5 _ k6 Hsh Hcw I). right. left.
+      split; [exact Hsh|]. split; [reflexivity|].
+      change (relp [DD; s_x; s_f]) with (clean Linux (relp [DD; s_x; s_f])).
+      assert (HR : name_path (clean Linux (relp [DD; s_x; s_f])) s_f /\ _) by rel_tac Hsh (relp [DD; s_x; s_f]) 1 [s_x] s_f.
+      destruct HR as (_ & Hr). res_tac Hr SlLstat.
+  Qed.
+
+  Example hk_inv :
+    Forall2 obs_sim (snd (impl_run w_tree hk)) (snd (spec_run sw_tree hk))
+    /\ absc (fst (impl_run w_tree hk)) 0 (fst (spec_run sw_tree hk)) (cwd_of (fst (impl_run w_tree hk)) 0)
+    /\ Inv (fst (impl_run w_tree hk)) /\ links_ok (f_heap (w_fs (fst (impl_run w_tree hk)))).
+  Proof. exact (history_inv_e 0 hk w_tree sw_tree tree_inv (proj1 hc_covered) eq_refl tree_links_ok hk_ok). Qed.
+End StepCwdKeepExamples.
